@@ -422,6 +422,24 @@ class Engine:
             raise Unsupported('solver unknown in feasibility check')
         return r == z3.sat
 
+    def concrete_under(self, st, bv):
+        """the unique value a bit-vector has under the path condition, or None"""
+        c = bv.concrete()
+        if c is not None:
+            return c
+        self.solver.push()
+        self.solver.add(*st.pc)
+        r = self.solver.check()
+        val = None
+        if r == z3.sat:
+            m = self.solver.model().eval(bv.e, model_completion=True)
+            self.solver.add(bv.e != m)
+            if self.solver.check() == z3.unsat:
+                val = m.as_signed_long() if bv.signed else m.as_long()
+        self.solver.pop()
+        self.stats['sat_calls'] += 2
+        return val
+
     # ------------------------------------------------------------------ places
     def read_projs(self, st, val, projs, frame):
         i = 0
